@@ -220,3 +220,345 @@ Proof. intros H. apply js_lines. apply js_chunks_ok_nonempty. exact H. Qed.
 Lemma js_empty_chunk_refuted :
   exists chunks, lines_js chunks <> split_lines (concat chunks).
 Proof. exists [[97; CR]; []; [LF; 98]]%N. vm_compute. discriminate. Qed.
+
+(* ------------------------------------------------------------------ Part 3: the consumer-facing side *)
+
+Definition Qof (q : jcons) : list (list str) := j_pull q ++ j_push q.
+Definition first1 {T} (E : list T) : list T := match E with [] => [] | a :: _ => [a] end.
+
+(* no exception stored so far. [E] = every record enqueued so far *)
+Definition InvN (E : list (list str)) (cs : cstate) (q : jcons) : Prop :=
+  j_exc q = None /\
+  match cs with
+  | CStart => j_pending q = false /\ j_inbox q = None /\ j_preread q = false /\ j_first_record q = None /\
+              j_frse q = negb (j_has_header q) /\ E = Qof q
+  | CPreread => j_preread q = false /\ j_first_record q = None /\ j_frse q = negb (j_has_header q) /\
+      ((j_pending q = true /\ j_inbox q = None /\ Qof q = [] /\ E = []) \/
+       (j_pending q = false /\ exists r, j_inbox q = Some (DRec r) /\ E = r :: Qof q) \/
+       (j_pending q = false /\ j_inbox q = Some DNull /\ E = [] /\ Qof q = [] /\ j_exhausted q = true))
+  | CLoop acc => j_preread q = true /\ j_frse q = false /\ j_first_record q = hd_error E /\
+      let pre := if j_has_header q then first1 E else [] in
+      ((j_pending q = true /\ j_inbox q = None /\ Qof q = [] /\ E = pre ++ acc /\ E <> []) \/
+       (j_pending q = false /\ exists r, j_inbox q = Some (DRec r) /\ E = pre ++ acc ++ r :: Qof q) \/
+       (j_pending q = false /\ j_inbox q = Some DNull /\ Qof q = [] /\ E = pre ++ acc /\ j_exhausted q = true))
+  | CDone (inl recs) => j_pending q = false /\ Qof q = [] /\ j_exhausted q = true /\ j_first_record q = hd_error E /\
+                        E = (if j_has_header q then first1 E else []) ++ recs
+  | CDone (inr _) => False
+  end.
+
+(* the first stored exception was [e] *)
+Definition InvX (e : jerr) (cs : cstate) (q : jcons) : Prop :=
+  cs = CDone (inr e) \/
+  ((cs = CPreread \/ exists acc, cs = CLoop acc) /\ j_inbox q = Some (DReject e) /\ j_pending q = false) \/
+  (j_exc q = Some e /\ j_pending q = false /\
+   (cs = CStart \/ ((cs = CPreread \/ exists acc, cs = CLoop acc) /\ exists r, j_inbox q = Some (DRec r)))).
+
+Definition Inv (E : list (list str)) (X : option jerr) (cs : cstate) (q : jcons) : Prop :=
+  match X with None => InvN E cs q | Some e => InvX e cs q end.
+
+(* the consumer has not been told "end of input" *)
+Definition no_null (cs : cstate) (q : jcons) : Prop :=
+  j_inbox q <> Some DNull /\ (forall recs, cs <> CDone (inl recs)).
+
+Definition ghost (a : action) (g : list (list str) * option jerr) : list (list str) * option jerr :=
+  match a with
+  | AEnqueue r => (fst g ++ [r], snd g)
+  | AStore e => (fst g, match snd g with None => Some e | x => x end)
+  | _ => g
+  end.
+
+Lemma dequeue_spec push pull :
+  match pull ++ push with
+  | [] => dequeue push pull = (None, [], [])
+  | r :: rest => exists push' pull', dequeue push pull = (Some r, push', pull') /\ pull' ++ push' = rest
+  end.
+Proof.
+  unfold dequeue. destruct pull as [|r p']; cbn [app].
+  - destruct push as [|r rest]; [reflexivity|]. exists [], rest. split; [reflexivity|apply app_nil_r].
+  - exists push, p'. auto.
+Qed.
+
+Lemma InvN_nonull_exhausted E cs q : InvN E cs q -> j_exhausted q = false -> no_null cs q.
+Proof.
+  intros [_ H] Hex. split.
+  - intros Hn. destruct cs as [| |acc|[recs|e]]; cbn in H.
+    + destruct H as (_ & C & _). congruence.
+    + destruct H as (_ & _ & _ & [(_ & C & _)|[(_ & r & C & _)|(_ & _ & _ & _ & C)]]); congruence.
+    + destruct H as (_ & _ & _ & [(_ & C & _)|[(_ & r & C & _)|(_ & _ & _ & _ & C)]]); congruence.
+    + destruct H as (_ & _ & C & _). congruence.
+    + exact H.
+  - intros recs ->. cbn in H. destruct H as (_ & _ & C & _). congruence.
+Qed.
+
+Ltac q_destruct q := destruct q as [qex qexc qpush qpull qhh qfr qfrse qpre qpend qinbox]; unfold Qof in *; cbn [j_exhausted j_exc j_push j_pull j_has_header j_first_record j_frse j_preread j_pending j_inbox] in *.
+
+Lemma firstn1_snoc {T} (E : list T) r : E <> [] -> first1 (E ++ [r]) = first1 E.
+Proof. destruct E; [congruence|reflexivity]. Qed.
+Lemma hd_error_snoc {T} (E : list T) r : E <> [] -> hd_error (E ++ [r]) = hd_error E.
+Proof. destruct E; [congruence|reflexivity]. Qed.
+
+Lemma act_enqueue_N E cs q r :
+  InvN E cs q -> no_null cs q ->
+  InvN (E ++ [r]) cs (do_action (AEnqueue r) q) /\ no_null cs (do_action (AEnqueue r) q).
+Proof.
+  intros [Hexc H] [Hnn Hnd]. q_destruct q. subst qexc.
+  unfold do_action, try_resolve_next_record, try_propagate_exception, upd_q, InvN, no_null; cbn.
+  destruct cs as [| |acc|[recs|e]]; cbn in H.
+  - destruct H as (-> & -> & -> & -> & -> & ->). cbn. rewrite app_assoc. repeat split; try reflexivity; try discriminate.
+  - destruct H as (-> & -> & -> & [(-> & -> & HQ & ->)|[(-> & r0 & -> & ->)|(-> & -> & _)]]); [| |congruence].
+    + apply app_eq_nil in HQ. destruct HQ as [-> ->]. cbn. rewrite andb_false_r. cbn.
+      split; [|split; [discriminate|discriminate]]. split; [reflexivity|]. repeat split; try reflexivity.
+      right. left. split; [reflexivity|]. exists r. auto.
+    + cbn. split; [|split; [discriminate|discriminate]]. split; [reflexivity|]. repeat split; try reflexivity.
+      right. left. split; [reflexivity|]. exists r0. rewrite app_assoc. auto.
+  - destruct H as (-> & -> & Hfr & [(-> & -> & HQ & HE & Hne)|[(-> & r0 & -> & HE)|(-> & -> & _)]]); [| |congruence].
+    + apply app_eq_nil in HQ. destruct HQ as [-> ->]. cbn.
+      split; [|split; [discriminate|discriminate]]. split; [reflexivity|]. split; [reflexivity|]. split; [reflexivity|].
+      split; [rewrite hd_error_snoc by exact Hne; exact Hfr|].
+      right. left. split; [reflexivity|]. exists r. split; [reflexivity|]. cbn.
+      rewrite firstn1_snoc by exact Hne. rewrite HE at 1. rewrite <- app_assoc. reflexivity.
+    + assert (Hne : E <> []). { rewrite HE. destruct (if qhh then first1 E else []); [destruct acc|]; discriminate. }
+      cbn. split; [|split; [discriminate|discriminate]]. split; [reflexivity|]. split; [reflexivity|]. split; [reflexivity|].
+      split; [rewrite hd_error_snoc by exact Hne; exact Hfr|].
+      right. left. split; [reflexivity|]. exists r0. split; [reflexivity|].
+      rewrite firstn1_snoc by exact Hne. rewrite HE at 1. rewrite <- !app_assoc. cbn. rewrite <- app_assoc. reflexivity.
+  - exfalso. apply (Hnd recs). reflexivity.
+  - contradiction.
+Qed.
+
+Lemma act_store_N E cs q e :
+  InvN E cs q -> no_null cs q -> InvX e cs (do_action (AStore e) q) /\ no_null cs (do_action (AStore e) q).
+Proof.
+  intros [Hexc H] [Hnn Hnd]. q_destruct q. subst qexc.
+  unfold do_action, store_or_propagate_exception, try_propagate_exception, upd_q, InvX, no_null; cbn.
+  destruct cs as [| |acc|[recs|e0]]; cbn in H.
+  - destruct H as (-> & -> & _). cbn. split; [right; right; auto|split; [discriminate|discriminate]].
+  - destruct H as (_ & _ & _ & [(-> & -> & _)|[(-> & r0 & -> & _)|(-> & -> & _)]]); [| |congruence]; cbn.
+    + split; [right; left; auto|split; [discriminate|discriminate]].
+    + split; [right; right; split; [reflexivity|split; [reflexivity|right; split; [auto|exists r0; reflexivity]]]|split; [discriminate|discriminate]].
+  - destruct H as (_ & _ & _ & [(-> & -> & _)|[(-> & r0 & -> & _)|(-> & -> & _)]]); [| |congruence]; cbn.
+    + split; [right; left; split; [right; exists acc; reflexivity|auto]|split; [discriminate|discriminate]].
+    + split; [right; right; split; [reflexivity|split; [reflexivity|right; split; [right; exists acc; reflexivity|exists r0; reflexivity]]]|split; [discriminate|discriminate]].
+  - exfalso. apply (Hnd recs). reflexivity.
+  - contradiction.
+Qed.
+
+(* once an exception is on record, nothing the producer does changes what the consumer will see *)
+Lemma act_any_X e cs q a : InvX e cs q -> InvX e cs (do_action a q).
+Proof.
+  intros H. destruct H as [H|[(Hcs & Hin & Hp)|(Hexc & Hp & Hcs)]].
+  - left. exact H.
+  - right. left. q_destruct q. subst. split; [exact Hcs|].
+    destruct a; unfold do_action, store_or_propagate_exception, try_resolve_next_record, try_propagate_exception, upd_q; cbn.
+    + destruct qexc; cbn; auto.
+    + destruct qexc; cbn; auto.
+    + auto.
+    + destruct qexc; cbn; auto.
+  - right. right. q_destruct q. subst.
+    destruct a; unfold do_action, store_or_propagate_exception, try_resolve_next_record, try_propagate_exception, upd_q; cbn; auto.
+Qed.
+
+Lemma act_exhausted_N E cs q :
+  InvN E cs q -> InvN E cs (do_action AExhausted q) /\ (no_null cs q -> no_null cs (do_action AExhausted q)).
+Proof.
+  intros [Hexc H]. q_destruct q. subst qexc. unfold do_action, InvN, no_null; cbn. split; [|auto].
+  split; [reflexivity|]. destruct cs as [| |acc|[recs|e0]]; cbn in H |- *.
+  - exact H.
+  - destruct H as (A & B & C & [D|[D|(D1 & D2 & D3 & D4 & D5)]]); repeat split; auto. right. right. auto.
+  - destruct H as (A & B & C & [D|[D|(D1 & D2 & D3 & D4 & D5)]]); repeat split; auto. right. right. auto.
+  - destruct H as (A & B & C & D & F). auto.
+  - exact H.
+Qed.
+
+Lemma act_resolve_N E cs q :
+  InvN E cs q -> InvN E cs (do_action AResolve q) /\
+  (j_exhausted q = true -> j_pending (do_action AResolve q) = false).
+Proof.
+  intros [Hexc H]. q_destruct q. subst qexc.
+  unfold do_action, try_resolve_next_record, try_propagate_exception, upd_q, InvN; cbn.
+  destruct cs as [| |acc|[recs|e0]]; cbn in H.
+  - destruct H as (-> & -> & -> & -> & -> & ->). cbn. repeat split; reflexivity.
+  - destruct H as (-> & -> & -> & [(-> & -> & HQ & ->)|[(-> & r0 & -> & ->)|(-> & -> & -> & HQ & ->)]]).
+    + apply app_eq_nil in HQ. destruct HQ as [-> ->]. cbn. rewrite andb_false_r. cbn.
+      destruct qex; cbn.
+      * split; [|reflexivity]. split; [reflexivity|]. repeat split; auto. right. right. auto.
+      * split; [|discriminate]. split; [reflexivity|]. repeat split; auto; try solve [left; repeat split; auto].
+    + cbn. split; [|reflexivity]. split; [reflexivity|]. repeat split; auto. right. left. split; [reflexivity|]. exists r0. auto.
+    + cbn. split; [|reflexivity]. split; [reflexivity|]. repeat split; auto. right. right. auto.
+  - destruct H as (-> & -> & Hfr & [(-> & -> & HQ & HE & Hne)|[(-> & r0 & -> & HE)|(-> & -> & HQ & HE & ->)]]).
+    + apply app_eq_nil in HQ. destruct HQ as [-> ->]. cbn.
+      destruct qex; cbn.
+      * split; [|reflexivity]. split; [reflexivity|]. repeat split; auto. right. right. auto.
+      * split; [|discriminate]. split; [reflexivity|]. repeat split; auto; try solve [left; repeat split; auto].
+    + cbn. split; [|reflexivity]. split; [reflexivity|]. repeat split; auto. right. left. split; [reflexivity|]. exists r0. auto.
+    + cbn. split; [|reflexivity]. split; [reflexivity|]. repeat split; auto. right. right. auto.
+  - destruct H as (-> & HQ & -> & Hfr & HE). cbn. split; [|reflexivity]. split; [reflexivity|]. auto.
+  - contradiction.
+Qed.
+
+Lemma run_inv_N : forall fuel E cs q,
+  InvN E cs q -> InvN E (fst (consumer_run fuel cs q)) (snd (consumer_run fuel cs q)).
+Proof.
+  induction fuel as [|f IH]; intros E cs q HI; [exact HI|].
+  cbn [consumer_run]. destruct cs as [| |acc|res].
+  - (* CStart: get_header() -> preread_first_record() -> get_record() *)
+    apply IH. destruct HI as [Hexc H]. q_destruct q. subst qexc. cbn in H.
+    destruct H as (-> & -> & -> & -> & -> & ->).
+    unfold call_get_record, try_resolve_next_record, try_propagate_exception, upd_q, InvN; cbn. rewrite andb_false_r. cbn.
+    pose proof (dequeue_spec qpush qpull) as D. destruct (qpull ++ qpush) as [|r rest] eqn:EQ.
+    + rewrite D. cbn. destruct qex; cbn; (split; [reflexivity|]); repeat split; auto. right. right. auto.
+    + destruct D as (pu & pl & -> & Er). cbn. split; [reflexivity|]. repeat split; auto.
+      right. left. split; [reflexivity|]. exists r. rewrite Er. auto.
+  - destruct HI as [Hexc H]. q_destruct q. subst qexc. cbn in H.
+    destruct H as (-> & -> & -> & [(-> & -> & HQ & ->)|[(-> & r0 & -> & ->)|(-> & -> & -> & HQ & ->)]]).
+    + cbn. unfold InvN. cbn. repeat split; auto; try solve [left; repeat split; auto].
+    + (* the first record arrives: header_preread_complete = true; get_all_records() -> get_record() *)
+      cbn. apply IH. unfold call_get_record, try_resolve_next_record, try_propagate_exception, upd_q, InvN; cbn.
+      rewrite andb_true_r. destruct qhh; cbn.
+      * pose proof (dequeue_spec qpush qpull) as D. destruct (qpull ++ qpush) as [|r rest] eqn:EQ.
+        -- rewrite D. cbn. destruct qex; cbn; (split; [reflexivity|]); repeat split; auto; try solve [left; repeat split; auto; discriminate].
+           right. right. auto.
+        -- destruct D as (pu & pl & -> & Er). cbn. split; [reflexivity|]. repeat split; auto.
+           right. left. split; [reflexivity|]. exists r. rewrite Er. auto.
+      * split; [reflexivity|]. repeat split; auto. right. left. split; [reflexivity|]. exists r0. auto.
+    + (* end of input before any record *)
+      cbn. apply IH. unfold call_get_record, try_resolve_next_record, try_propagate_exception, upd_q, InvN; cbn.
+      apply app_eq_nil in HQ. destruct HQ as [-> ->]. rewrite andb_true_r. destruct qhh; cbn.
+      * split; [reflexivity|]. repeat split; auto. right. right. auto.
+      * split; [reflexivity|]. repeat split; auto. right. right. auto.
+  - destruct HI as [Hexc H]. q_destruct q. subst qexc. cbn in H.
+    destruct H as (-> & -> & Hfr & [(-> & -> & HQ & HE & Hne)|[(-> & r0 & -> & HE)|(-> & -> & HQ & HE & ->)]]).
+    + cbn. unfold InvN. cbn. repeat split; auto; try solve [left; repeat split; auto].
+    + cbn. apply IH. unfold call_get_record, try_resolve_next_record, try_propagate_exception, upd_q, InvN; cbn.
+      assert (Hne : E <> []). { rewrite HE. destruct (if qhh then first1 E else []); [destruct acc|]; discriminate. }
+      pose proof (dequeue_spec qpush qpull) as D. destruct (qpull ++ qpush) as [|r rest] eqn:EQ.
+      * rewrite D. cbn. destruct qex; cbn; (split; [reflexivity|]); repeat split; auto.
+        -- right. right. repeat split; auto.
+        -- left. repeat split; auto.
+      * destruct D as (pu & pl & -> & Er). cbn. split; [reflexivity|]. repeat split; auto.
+        right. left. split; [reflexivity|]. exists r. split; [reflexivity|]. rewrite Er, <- app_assoc. exact HE.
+    + cbn. unfold InvN. cbn. repeat split; auto.
+  - exact HI.
+Qed.
+
+Lemma run_inv_X : forall fuel e cs q,
+  InvX e cs q -> InvX e (fst (consumer_run fuel cs q)) (snd (consumer_run fuel cs q)).
+Proof.
+  induction fuel as [|f IH]; intros e cs q HI; [exact HI|].
+  destruct HI as [H|[(Hcs & Hin & Hp)|(Hexc & Hp & Hcs)]].
+  - subst cs. left. reflexivity.
+  - q_destruct q. subst. destruct Hcs as [->|[acc ->]]; cbn; left; reflexivity.
+  - q_destruct q. subst.
+    destruct Hcs as [->|[[->|[acc ->]] [r ->]]]; cbn [consumer_run j_inbox]; apply IH; right; left;
+      unfold call_get_record, try_resolve_next_record, try_propagate_exception, upd_q; cbn; eauto.
+Qed.
+
+Lemma consumer_run_exhausted : forall fuel cs q, j_exhausted (snd (consumer_run fuel cs q)) = j_exhausted q.
+Proof.
+  assert (Hc : forall q, j_exhausted (call_get_record q) = j_exhausted q).
+  { intros q. unfold call_get_record, try_resolve_next_record, try_propagate_exception, upd_q. q_destruct q. cbn.
+    destruct qexc; cbn; [reflexivity|]. destruct (qfrse && qpre); cbn.
+    - destruct qfr; cbn; [reflexivity|]. destruct qex; reflexivity.
+    - destruct (dequeue qpush qpull) as [[r pu] pl]. destruct r; cbn; [reflexivity|]. destruct qex; reflexivity. }
+  induction fuel as [|f IH]; intros cs q; [reflexivity|]. cbn [consumer_run].
+  destruct cs as [| |acc|res].
+  - rewrite IH. apply Hc.
+  - destruct (j_inbox q) as [[r| |e]|]; try reflexivity; rewrite IH, Hc; reflexivity.
+  - destruct (j_inbox q) as [[r| |e]|]; try reflexivity. rewrite IH, Hc. reflexivity.
+  - reflexivity.
+Qed.
+
+(* how many promise continuations are still needed before the consumer is done or has to wait *)
+Definition mu (cs : cstate) (q : jcons) : nat :=
+  (length (Qof q) + (match j_inbox q with Some (DRec _) => 1 | _ => 0 end) +
+   match cs with CStart => 4 | CPreread => 3 | CLoop _ => 1 | CDone _ => 0 end)%nat.
+
+Definition is_done (cs : cstate) : Prop := match cs with CDone _ => True | _ => False end.
+
+Lemma consumer_run_S f cs q :
+  consumer_run (S f) cs q = consumer_run f (fst (consumer_run 1 cs q)) (snd (consumer_run 1 cs q)).
+Proof.
+  cbn [consumer_run]. destruct cs as [| |acc|res]; cbn [fst snd].
+  - reflexivity.
+  - destruct (j_inbox q) as [[r| |e]|] eqn:Ei; cbn [fst snd]; try reflexivity.
+    + destruct f; reflexivity.
+    + destruct f; [reflexivity|]. cbn [consumer_run]. rewrite Ei. reflexivity.
+  - destruct (j_inbox q) as [[r| |e]|] eqn:Ei; cbn [fst snd]; try reflexivity.
+    + destruct f; reflexivity.
+    + destruct f; reflexivity.
+    + destruct f; [reflexivity|]. cbn [consumer_run]. rewrite Ei. reflexivity.
+  - destruct f; reflexivity.
+Qed.
+
+(* one continuation, after the end of the input and with nobody waiting: progress *)
+Lemma step_progress E cs q :
+  InvN E cs q -> j_exhausted q = true -> j_pending q = false -> ~ is_done cs ->
+  j_pending (snd (consumer_run 1 cs q)) = false /\
+  (mu (fst (consumer_run 1 cs q)) (snd (consumer_run 1 cs q)) < mu cs q)%nat.
+Proof.
+  intros [Hexc H] Hex Hp Hnd. q_destruct q. subst qexc qex qpend. unfold mu, Qof.
+  destruct cs as [| |acc|res]; cbn in H; cbn [consumer_run fst snd j_inbox].
+  - destruct H as (_ & -> & -> & -> & -> & ->).
+    unfold call_get_record, try_resolve_next_record, try_propagate_exception, upd_q. cbn. rewrite andb_false_r. cbn.
+    pose proof (dequeue_spec qpush qpull) as D. destruct (qpull ++ qpush) as [|r rest] eqn:EQ.
+    + rewrite D. cbn. split; [reflexivity|lia].
+    + destruct D as (pu & pl & -> & Er). cbn. rewrite Er. cbn. split; [reflexivity|lia].
+  - destruct H as (-> & -> & -> & [(C & _)|[(_ & r0 & -> & ->)|(_ & -> & -> & HQ & _)]]); [discriminate| |].
+    + unfold call_get_record, try_resolve_next_record, try_propagate_exception, upd_q. cbn. rewrite andb_true_r.
+      destruct qhh; cbn.
+      * pose proof (dequeue_spec qpush qpull) as D. destruct (qpull ++ qpush) as [|r rest] eqn:EQ.
+        -- rewrite D. cbn. split; [reflexivity|lia].
+        -- destruct D as (pu & pl & -> & Er). cbn. rewrite Er. cbn. split; [reflexivity|lia].
+      * split; [reflexivity|lia].
+    + apply app_eq_nil in HQ. destruct HQ as [-> ->].
+      unfold call_get_record, try_resolve_next_record, try_propagate_exception, upd_q. cbn. rewrite andb_true_r.
+      destruct qhh; cbn; (split; [reflexivity|lia]).
+  - destruct H as (-> & -> & Hfr & [(C & _)|[(_ & r0 & -> & HE)|(_ & -> & HQ & HE & _)]]); [discriminate| |].
+    + unfold call_get_record, try_resolve_next_record, try_propagate_exception, upd_q. cbn.
+      pose proof (dequeue_spec qpush qpull) as D. destruct (qpull ++ qpush) as [|r rest] eqn:EQ.
+      * rewrite D. cbn. split; [reflexivity|lia].
+      * destruct D as (pu & pl & -> & Er). cbn. rewrite Er. cbn. split; [reflexivity|lia].
+    + cbn. split; [reflexivity|lia].
+  - exfalso. apply Hnd. exact I.
+Qed.
+
+(* after the end of the input, with nobody waiting, the consumer runs to completion *)
+Lemma run_complete_N : forall fuel E cs q,
+  InvN E cs q -> j_exhausted q = true -> j_pending q = false -> (mu cs q <= fuel)%nat ->
+  is_done (fst (consumer_run fuel cs q)).
+Proof.
+  induction fuel as [|f IH]; intros E cs q HI Hex Hp Hmu.
+  - destruct cs; unfold mu in Hmu; cbn in Hmu; try lia. exact I.
+  - assert (Hdec : is_done cs \/ ~ is_done cs) by (destruct cs; cbn; auto).
+    destruct Hdec as [Hd|Hnd].
+    + destruct cs; try contradiction. exact I.
+    + rewrite consumer_run_S.
+      destruct (step_progress E cs q HI Hex Hp Hnd) as [Hp' Hmu'].
+      pose proof (run_inv_N 1 E cs q HI) as HI'.
+      pose proof (consumer_run_exhausted 1 cs q) as Hex'. rewrite Hex in Hex'.
+      remember (fst (consumer_run 1 cs q)) as cs'. remember (snd (consumer_run 1 cs q)) as q'.
+      apply (IH E cs' q' HI' Hex' Hp'). lia.
+Qed.
+
+Lemma run_complete_X : forall e cs q, InvX e cs q -> forall fuel, (3 <= fuel)%nat -> fst (consumer_run fuel cs q) = CDone (inr e).
+Proof.
+  assert (Hb : forall e cs q, (cs = CPreread \/ exists acc, cs = CLoop acc) -> j_inbox q = Some (DReject e) ->
+               forall f, fst (consumer_run (S f) cs q) = CDone (inr e)).
+  { intros e cs q Hcs Hin f. cbn [consumer_run]. destruct Hcs as [->|[acc ->]]; rewrite Hin; reflexivity. }
+  assert (Hcall : forall e q, j_exc q = Some e -> j_inbox (call_get_record q) = Some (DReject e)).
+  { intros e q Hexc. q_destruct q. subst. reflexivity. }
+  intros e cs q HI fuel Hf. destruct fuel as [|[|f]]; try lia.
+  destruct HI as [H|[(Hcs & Hin & Hp)|(Hexc & Hp & Hcs)]].
+  - subst cs. reflexivity.
+  - apply Hb; assumption.
+  - rewrite consumer_run_S. destruct Hcs as [->|[Hcs [r Hin]]].
+    + change (consumer_run 1 CStart q) with (CPreread, call_get_record q). cbn [fst snd].
+      apply Hb; [left; reflexivity|]. apply Hcall. exact Hexc.
+    + destruct Hcs as [->|[acc ->]].
+      * assert (E1 : exists q1, consumer_run 1 CPreread q = (CLoop [], call_get_record q1) /\ j_exc q1 = Some e).
+        { cbn [consumer_run]. rewrite Hin. eexists. split; [reflexivity|]. exact Hexc. }
+        destruct E1 as (q1 & -> & Hx). cbn [fst snd]. apply Hb; [right; exists []; reflexivity|]. apply Hcall. exact Hx.
+      * assert (E1 : consumer_run 1 (CLoop acc) q = (CLoop (acc ++ [r]), call_get_record q)).
+        { cbn [consumer_run]. rewrite Hin. reflexivity. }
+        rewrite E1. cbn [fst snd]. apply Hb; [right; eexists; reflexivity|]. apply Hcall. exact Hexc.
+Qed.
